@@ -29,7 +29,7 @@ def cases(rng, tier):
                     cs.append({"kind": "matrix", "n": n, "e": ("c", c, g)})
     # nested controls, controls on products / qft / h-products / already controlled operators
     n = 4
-    for _ in range(150 if tier == "quick" else 800):
+    for _ in range(150 if tier == "quick" else 4000):
         base = rng.choice([lambda: rand_product(rng, n, rng.randint(2, 6)),
                            lambda: ("qft", rng.randrange(1, 1 << n)),
                            lambda: ("h", rng.randrange(1 << n)),
@@ -40,7 +40,7 @@ def cases(rng, tier):
             e = ("dgr", e)
         cs.append({"kind": "matrix", "n": n, "e": e})
     # dense states on the register path
-    for _ in range(60 if tier == "quick" else 300):
+    for _ in range(60 if tier == "quick" else 1500):
         n = rng.randint(2, 5)
         g = gen.random_gate(rng, n)
         free = [c for c in range(1 << n) if not c & act_on(g)]
